@@ -120,7 +120,7 @@ def convexhull(bwimg):
     hull : ndarray
         Set of (y,x) coordinates of hull corners
     '''
-    bwimg = np.ascontiguousarray(bwimg, dtype=np.bool_)
+    bwimg = np.require(bwimg, dtype=np.bool_, requirements='CAW')
     if bwimg.ndim != 2:
         raise ValueError('mahotas.polygon.convexhull: Only two-dimensional images supported')
     return _convex.convexhull(bwimg)
